@@ -49,6 +49,11 @@ def expected_for_query(q: bytes):
 
 def rand_text(rng):
     r = rng.random()
+    if r < 0.12:
+        # what connectors and dump tools put in front of a statement: the text is the shim's, verbatim
+        pre = rng.choice([b"/* mysql-connector-java */", b"/*!40101 SET NAMES utf8 */", b"/* x */ ", b"/**/", b"/* unterminated ", b"-- c\n", b"# c\n",
+                          b"\n", b"\t ", b"(", b"/*+ hint */ "])
+        return pre + rng.choice([b"SELECT 1", b"SELECT @@version_comment", b"USE prod", b"use `x`;", b"", b"select @@x", b"SET NAMES utf8"])
     if r < 0.25:
         return rng.choice([b"SELECT @@max_allowed_packet", b"SELECT @@version_comment limit 1", b"select @@x", b"SELECT @x",
                            b"Select @@x", b"SELECT  @@x", b"SELECT@@x", b" SELECT @@x", b"select @", b"SELECT @@", b"USER()",
